@@ -154,23 +154,69 @@ Proof.
   rewrite IH by (intro Hin; apply H; right; exact Hin). reflexivity.
 Qed.
 
+(* ---------- decrypt_raw's object-stream pass ---------- *)
+Lemma objstm_scan_none P m : has_objstm m = false -> objstm_scan P m = (m, []).
+Proof.
+  unfold has_objstm. induction m as [|[i o] m IH]; cbn [existsb snd objstm_scan]; intro H; [reflexivity|].
+  apply orb_false_iff in H. destruct H as [Ho Hm]. rewrite (IH Hm). cbn [fst snd].
+  destruct o as [|b|z|r|n|s h|l|d|d c|i0 g]; try reflexivity. rewrite Ho. reflexivity.
+Qed.
+
+(* without a stream of Type ObjStm the pass does nothing *)
+Lemma objstm_pass_none P m : has_objstm m = false -> objstm_pass P m = m.
+Proof. intro H. unfold objstm_pass. rewrite (objstm_scan_none P m H). reflexivity. Qed.
+
+Lemma objstm_scan_keys P m : map fst (fst (objstm_scan P m)) = map fst m.
+Proof.
+  induction m as [|[i o] m IH]; [reflexivity|]. cbn [objstm_scan].
+  destruct o as [|b|z|r|n|s h|l|d|d c|i0 g]; cbn [fst map]; try (rewrite IH; reflexivity).
+  destruct (has_type d N_ObjStm); cbn [fst map]; rewrite IH; reflexivity.
+Qed.
+
+(* the encryption dictionary object (a dictionary, not a stream) is left alone by the scan *)
+Lemma objstm_scan_insert_dict P m id e : ~ In id (map fst m) ->
+  objstm_scan P (insert m id (ODict e)) = (insert (fst (objstm_scan P m)) id (ODict e), snd (objstm_scan P m)).
+Proof.
+  induction m as [|[i o] m IH]; cbn [insert map fst In]; intro H; [reflexivity|].
+  assert (E : oid_eqb i id = false) by (apply oid_eqb_false; intro E; apply H; left; exact E).
+  rewrite E. destruct (oid_ltb id i) eqn:L.
+  - cbn [objstm_scan fst snd].
+    destruct o as [|b|z|r|n|s h|l|d|d c|i0 g]; cbn [fst snd insert]; rewrite ?E, ?L; try reflexivity.
+    destruct (has_type d N_ObjStm); cbn [fst snd insert]; rewrite E, L; reflexivity.
+  - cbn [objstm_scan]. rewrite IH by (intro Hin; apply H; right; exact Hin). cbn [fst snd].
+    destruct o as [|b|z|r|n|s h|l|d|d c|i0 g]; cbn [fst snd insert]; rewrite ?E, ?L; try reflexivity.
+    destruct (has_type d N_ObjStm); cbn [fst snd insert]; rewrite E, L; reflexivity.
+Qed.
+
+(* what decrypt_raw leaves in Document.objects: the object-stream pass runs while the encryption dictionary
+   (object [id], content [e]) is still in the map -- a member of an object stream that carries this number is
+   therefore not added --, then the dictionary object is removed *)
+Definition opened_objects (P : prims) (m : objmap) (id : oid) (e : dict) : objmap :=
+  remove (objstm_pass P (insert m id (ODict e))) id.
+
+Lemma opened_objects_none P m id e : ~ In id (map fst m) -> has_objstm m = false -> opened_objects P m id e = m.
+Proof.
+  intros Hf Ho. unfold opened_objects. rewrite objstm_pass_none by (rewrite has_objstm_insert_fresh; assumption).
+  apply remove_insert_fresh. exact Hf.
+Qed.
+
 (* ---------- the document-level round trip, given authentication and key recovery ---------- *)
 (* ids of the document lie at or below max_id: the invariant add_object relies on *)
 Definition max_id_ok (d : doc) : Prop := forall id, In id (map fst (d_objects d)) -> fst id <= d_max_id d.
 
-Theorem doc_rt P st d ivs d1 pw st' :
+Theorem doc_rt_gen P st d ivs d1 pw st' :
   aes_ok P ->
   max_id_ok d ->
   dict_get (d_trailer d) K_Encrypt = None ->
-  has_objstm (d_objects d) = false ->
   doc_encrypt P st d ivs = DOk d1 tt ->
   authenticate_raw_password P d1 pw = Ok tt ->
   decode P d1 pw = Ok st' -> st_equiv st st' ->
   doc_decrypt_raw P d1 pw =
     DOk {| d_version := d_version d; d_binary_mark := d_binary_mark d; d_trailer := d_trailer d;
-           d_objects := norm_objs st (d_objects d); d_max_id := d_max_id d + 1 |} st'.
+           d_objects := opened_objects P (norm_objs st (d_objects d)) (d_max_id d + 1, 0) (encode st);
+           d_max_id := d_max_id d + 1 |} st'.
 Proof.
-  intros HP Hmax Htr Hos He Ha Hd Heq.
+  intros HP Hmax Htr He Ha Hd Heq.
   unfold doc_encrypt in He.
   destruct (is_encrypted d); [discriminate|].
   destruct (encrypt_objects P st (d_objects d) ivs) as [[m' ivs']| |] eqn:Eo; try discriminate.
@@ -189,11 +235,26 @@ Proof.
   rewrite decrypt_objects_insert by exact Hfresh'.
   rewrite <- (decrypt_objects_equiv P st st' _ m' Heq).
   rewrite (objects_rt P st id _ _ _ _ HP Hfresh Eo). cbn [rbind].
-  assert (Hfresh2 : ~ In id (map fst (norm_objs st (d_objects d)))).
-  { unfold norm_objs. rewrite map_map. cbn [fst]. exact Hfresh. }
-  rewrite has_objstm_insert_fresh by exact Hfresh2. rewrite has_objstm_norm, Hos.
-  rewrite remove_insert_fresh by exact Hfresh2.
   rewrite swap_remove_set_fresh by exact Htr. reflexivity.
+Qed.
+
+(* a document without object streams (has_objstm false): the objects themselves *)
+Theorem doc_rt P st d ivs d1 pw st' :
+  aes_ok P ->
+  max_id_ok d ->
+  dict_get (d_trailer d) K_Encrypt = None ->
+  has_objstm (d_objects d) = false ->
+  doc_encrypt P st d ivs = DOk d1 tt ->
+  authenticate_raw_password P d1 pw = Ok tt ->
+  decode P d1 pw = Ok st' -> st_equiv st st' ->
+  doc_decrypt_raw P d1 pw =
+    DOk {| d_version := d_version d; d_binary_mark := d_binary_mark d; d_trailer := d_trailer d;
+           d_objects := norm_objs st (d_objects d); d_max_id := d_max_id d + 1 |} st'.
+Proof.
+  intros HP Hmax Htr Hos He Ha Hd Heq.
+  rewrite (doc_rt_gen P st d ivs d1 pw st' HP Hmax Htr He Ha Hd Heq).
+  rewrite opened_objects_none; [reflexivity| |rewrite has_objstm_norm; exact Hos].
+  unfold norm_objs. rewrite map_map. cbn [fst]. intro Hin. apply Hmax in Hin. cbn [fst] in Hin. lia.
 Qed.
 
 (* with streams that carry their own /Length the objects come back exactly *)
